@@ -18,7 +18,8 @@ Slots   == {"absent", "user-sup", "user-unsup", "user-empty", "admin-sup", "admi
 Others  == {"none", "x.txt", "a.user.bak", "noext", "a.USER"}       \* an entry with another extension
 Subdirs == {"none", "sub", "d.user-dir"}                            \* a sub-directory (one of them named like a user file)
 Tmps    == {"absent", "dir-empty", "dir-with-file", "file"}
-Invalid == {"none", "-evil.admin-sup", "@boss.admin-sup", ".hidden.user-sup", "bad%name.user-sup", ".admin-sup"}
+\* (KELVIN stands for U+212A, which Unicode case folding maps to the letter k; the replay substitutes it)
+Invalid == {"none", "-evil.admin-sup", "@boss.admin-sup", ".hidden.user-sup", "bad%name.user-sup", ".admin-sup", "KELVINarl.admin-sup"}
 
 VARIABLE d
 Cases == [a : Slots, b : Slots, other : Others, sub : Subdirs, tmp : Tmps, inv : Invalid]
